@@ -68,7 +68,17 @@ func (t *BaseTraveler) Copy() Traveler {
 	for i := range t.Path {
 		o.Path[i] = t.Path[i]
 	}
-	o.Current = t.Current
+	if t.Current != nil {
+		// the copy gets its own current element: set/increment write through Data,
+		// and the original traveler may still be moving (jump sends it back to the mark)
+		o.Current = &DataElement{
+			ID:    t.Current.ID,
+			Label: t.Current.Label,
+			From:  t.Current.From, To: t.Current.To,
+			Data:   copy.DeepCopy(t.Current.Data).(map[string]interface{}),
+			Loaded: t.Current.Loaded,
+		}
+	}
 	return &o
 }
 
